@@ -253,6 +253,8 @@ def host_perturbations(host):
         kinds.append("hashseed")
     if host.get("aslr"):
         kinds.append("aslr")
+    if host.get("sched_seed"):
+        kinds.append("schedule")
     if host.get("user") or host.get("hostname") or host.get("columns") or host.get("umask") is not None:
         kinds.append("identity")
     return kinds
